@@ -7,6 +7,8 @@
 // handles them (std::terminate is intercepted, logged, and ends the run). Control requests are raw bytes
 // on a TCP connection to the control port. After every step a probe checks that the daemon still answers
 // PING and the node still serves an honest peer.
+#include <thread>
+#include <atomic>
 #include "common/ev.hpp"
 #include "common/vclock.hpp"
 #include "common/vrng.hpp"
@@ -42,6 +44,7 @@ static PeerId pid(long p) { return ev::id32(p, 0xA0); }
 static std::vector<std::uint8_t> payload_bytes(long k) { std::vector<std::uint8_t> v(static_cast<size_t>(20 + k)); for (size_t i = 0; i < v.size(); ++i) v[i] = static_cast<std::uint8_t>(1 + (k * 31 + i * 7) % 255); return v; }
 
 static std::string g_last_op = "none";
+static std::atomic<long> g_progress{0};      // bumped at the start of every script operation (watchdog: an operation that never returns is a hang)
 
 struct Driver {
     std::unique_ptr<Node> a, b;
@@ -219,7 +222,7 @@ struct Driver {
     }
 
     void run(const ev::Cmd& c) {
-        g_last_op = c.op;
+        g_last_op = c.op; ++g_progress;
         if (c.op == "reset") {
             server.reset(); for (auto& [p, fd] : stub) ::close(fd); stub.clear();
             if (a) { for (int i = 0; i < 3000 && Acc::sessions(*a).active_session_count() != 0; ++i) usleep(1000); usleep(2000); }
@@ -425,6 +428,17 @@ int main(int argc, char** argv) {
         std::fflush(ev::out());
         _exit(3);
     });
+    // watchdog: node and daemon must keep serving; a script operation (a delivery, a tick batch, tearing the daemon down for the next
+    // behaviour) that does not return within two minutes is reported as a hang and ends this driver process
+    std::thread([] {
+        long seen = g_progress.load(); int still = 0;
+        for (;;) {
+            sleep(5);
+            const long now = g_progress.load();
+            if (now != seen) { seen = now; still = 0; continue; }
+            if (++still >= 24) { ev::Ev e("hung"); e.s("during", g_last_op); e.emit(); std::fflush(ev::out()); _exit(6); }
+        }
+    }).detach();
     std::ifstream in(argv[1]);
     Driver d; d.dir = std::filesystem::absolute(argv[3]).string();
     ev::Cmd c;
